@@ -107,8 +107,12 @@ type c15Cfg struct {
 	Creds   bool   `json:"client_sends_credentials"`
 	Rich    string `json:"payload_enrichment,omitempty"`
 	Prelude string `json:"earlier_request,omitempty"` // "", "accepted", "refused"
-	Empty   bool   `json:"empty_payload"`
-	Raw     string `json:"raw_request,omitempty"`
+	// Concurrent: instead of one judged request, this many requests with different payloads are sent at the same time
+	// through the one exporter; the consumer holds every call until all have arrived (or 2 s), accepts the even ones and
+	// refuses the odd ones. Each payload must arrive once, unchanged, and each sender must see its own outcome.
+	Concurrent int    `json:"concurrent_requests,omitempty"`
+	Empty      bool   `json:"empty_payload"`
+	Raw        string `json:"raw_request,omitempty"`
 }
 
 // The OTLP specification's gRPC table: which codes a client may retry.
@@ -146,6 +150,47 @@ func addBulkAttribute(sig string, payload any, v string) {
 			x.At(0).Resource().Attributes().PutStr("bulk", v)
 		}
 	}
+}
+
+// c15Conc: the consumer side of the concurrent mode. A call is matched to the request it belongs to by its bytes, held
+// until every request has arrived (or 2 s), and answered with that request's own outcome.
+type c15Conc struct {
+	mu      sync.Mutex
+	sent    [][]byte
+	outcome []error
+	calls   []int
+	unknown [][]byte
+	arrived int
+	all     chan struct{}
+}
+
+func (c *c15Conc) sink(b []byte) error {
+	c.mu.Lock()
+	idx := -1
+	for i := range c.sent {
+		if bytes.Equal(c.sent[i], b) {
+			idx = i
+			break
+		}
+	}
+	if idx >= 0 {
+		c.calls[idx]++
+	} else {
+		c.unknown = append(c.unknown, b)
+	}
+	c.arrived++
+	if c.arrived == len(c.sent) {
+		close(c.all)
+	}
+	c.mu.Unlock()
+	select {
+	case <-c.all:
+	case <-time.After(2 * time.Second):
+	}
+	if idx < 0 {
+		return nil
+	}
+	return c.outcome[idx]
 }
 
 func runC15(r *simkit.Run) {
@@ -222,6 +267,9 @@ func runC15(r *simkit.Run) {
 			cfg.Auth = true
 		}
 	}
+	if cfg.Mode == "hop" && !cfg.Empty && (!cfg.Auth || cfg.Creds) && tp.Chance(1, 6) {
+		cfg.Concurrent = tp.Range(2, 6)
+	}
 	r.Sample = cfg
 	r.Logf("case %+v", cfg)
 	r.Count("probe.signal/" + cfg.Signal)
@@ -245,7 +293,14 @@ func runC15(r *simkit.Run) {
 	sinkCalls := 0
 	var sinkBytes []byte
 	p := pd{sig: cfg.Signal}
+	var conc *c15Conc
 	sink := func(x any) error {
+		mu.Lock()
+		cc := conc
+		mu.Unlock()
+		if cc != nil {
+			return cc.sink(p.bytes(x))
+		}
 		mu.Lock()
 		defer mu.Unlock()
 		sinkCalls++
@@ -365,18 +420,20 @@ func runC15(r *simkit.Run) {
 	}
 	var exp component.Component
 	var send func(ctx context.Context) error
+	var sendP func(ctx context.Context, pl any) error
 	var pe xexporter.Profiles
 	mk := func(l exporter.Logs, t exporter.Traces, m exporter.Metrics) {
 		switch cfg.Signal {
 		case sigProfiles:
-			exp, send = pe, func(ctx context.Context) error { return pe.ConsumeProfiles(ctx, payload.(pprofile.Profiles)) }
+			exp, sendP = pe, func(ctx context.Context, pl any) error { return pe.ConsumeProfiles(ctx, pl.(pprofile.Profiles)) }
 		case sigLogs:
-			exp, send = l, func(ctx context.Context) error { return l.ConsumeLogs(ctx, payload.(plog.Logs)) }
+			exp, sendP = l, func(ctx context.Context, pl any) error { return l.ConsumeLogs(ctx, pl.(plog.Logs)) }
 		case sigTraces:
-			exp, send = t, func(ctx context.Context) error { return t.ConsumeTraces(ctx, payload.(ptrace.Traces)) }
+			exp, sendP = t, func(ctx context.Context, pl any) error { return t.ConsumeTraces(ctx, pl.(ptrace.Traces)) }
 		default:
-			exp, send = m, func(ctx context.Context) error { return m.ConsumeMetrics(ctx, payload.(pmetric.Metrics)) }
+			exp, sendP = m, func(ctx context.Context, pl any) error { return m.ConsumeMetrics(ctx, pl.(pmetric.Metrics)) }
 		}
+		send = func(ctx context.Context) error { return sendP(ctx, payload) }
 	}
 	if cfg.Transport == "grpc" {
 		ef := otlpexporter.NewFactory()
@@ -459,6 +516,73 @@ func runC15(r *simkit.Run) {
 		mu.Unlock()
 		payload, outcome = judged, judgedOutcome
 		simkit.Beat()
+	}
+	if cfg.Concurrent > 0 {
+		r.Count("probe.concurrent_requests")
+		cc := &c15Conc{all: make(chan struct{})}
+		var pls []any
+		for i := 0; i < cfg.Concurrent; i++ {
+			pl := gen.Shape{MaxResources: 2, MaxScopes: 2, MaxMetrics: 2, MaxItems: 4, NonEmpty: true}.Gen(tp, ids, cfg.Signal)
+			gen.Enrich(tp, pl, false)
+			if i == 1 && tp.Chance(1, 3) {
+				addBulkAttribute(cfg.Signal, pl, strings.Repeat("bulk attribute of the second concurrent request ", 3000))
+			}
+			pls = append(pls, pl)
+			cc.sent = append(cc.sent, p.bytes(pl))
+			var o error
+			if i%2 == 1 {
+				o = errors.New("sim consumer: transient (odd concurrent request)")
+			}
+			cc.outcome = append(cc.outcome, o)
+		}
+		cc.calls = make([]int, len(pls))
+		mu.Lock()
+		conc = cc
+		mu.Unlock()
+		errs := make([]error, len(pls))
+		var wg sync.WaitGroup
+		for i := range pls {
+			wg.Add(1)
+			go func(i int) {
+				defer wg.Done()
+				errs[i] = sendP(context.Background(), pls[i])
+			}(i)
+		}
+		wg.Wait()
+		simkit.Beat()
+		stopReceiver()
+		r.Events += len(pls)
+		r.Nontrivial = true
+		for _, e := range errs {
+			if e != nil && (strings.Contains(e.Error(), "cannot assign requested address") || strings.Contains(e.Error(), "address already in use")) {
+				r.Count("probe.infra_socket_unavailable")
+				time.Sleep(200 * time.Millisecond)
+				return
+			}
+		}
+		cc.mu.Lock()
+		defer cc.mu.Unlock()
+		loc := cfg.Transport
+		if len(cc.unknown) > 0 {
+			r.Failf("delivery", "concurrent/payload-differs/"+cfg.Transport+"/"+cfg.Signal, "%d requests sent at the same time (%s %s): the consumer received a payload of %d bytes that is none of those sent: %s", len(pls), cfg.Transport, cfg.Compression, len(cc.unknown[0]), p.json(cc.unknown[0]))
+		}
+		for i := range pls {
+			if cc.calls[i] != 1 {
+				r.Failf("delivery", fmt.Sprintf("concurrent/consumer-called-%d-times/%s", cc.calls[i], loc), "%d requests sent at the same time: the payload of request %d reached the consumer %d times (sender saw %v)", len(pls), i, cc.calls[i], sanitize(errs[i], pg, ph))
+				continue
+			}
+			if cc.outcome[i] == nil && errs[i] != nil {
+				r.Failf("result", "concurrent/accepted-but-error/"+loc, "%d requests sent at the same time: the consumer accepted request %d but its sender got %v", len(pls), i, sanitize(errs[i], pg, ph))
+			}
+			if cc.outcome[i] != nil && errs[i] == nil {
+				r.Failf("result", "concurrent/refused-but-success/"+loc, "%d requests sent at the same time: the consumer refused request %d but its sender got success", len(pls), i)
+			}
+			if cc.outcome[i] != nil && errs[i] != nil && consumererror.IsPermanent(errs[i]) {
+				r.Failf("classification", "concurrent/retryable-became-permanent/"+loc, "%d requests sent at the same time: the transient refusal of request %d reached its sender as a permanent error: %v", len(pls), i, sanitize(errs[i], pg, ph))
+			}
+		}
+		r.State(fmt.Sprintf("%s concurrent=%d", cfg.Transport, len(pls)), "send")
+		return
 	}
 	serr := send(context.Background())
 	simkit.Beat()
@@ -701,5 +825,5 @@ var HarnessC15 = simkit.Harness{
 	Prop: "C15", Name: "svc/c15", Run: runC15, NoBubble: true, StepTimeout: 60e9, RateLimit: 40,
 	Real: []string{"otlpreceiver (gRPC and HTTP servers, created by its factory)", "otlpexporter (gRPC) and otlphttpexporter (protobuf and JSON), created by their factories on top of exporterhelper", "configgrpc / confighttp / configauth middleware incl. server-side authentication and every supported compression", "pdata request wrappers and codecs", "kernel loopback TCP"},
 	Stub: []string{"consumer behind the receiver (accepts / permanent / transient / gRPC status of each code with or without RetryInfo)", "server authenticator extension (expects a bearer token)", "raw HTTP client for malformed requests"},
-	Rule: "one run = one request through one hop: tape-drawn signal, generated payload (or an empty one), transport (gRPC, HTTP/protobuf, HTTP/JSON), compression, consumer outcome (accept, permanent, transient, gRPC status of each of 16 codes with/without RetryInfo of 0/0.5/2/61 s), server authenticator on/off with/without client credentials; or a raw malformed HTTP request (bad body, wrong content type, wrong method, missing credentials, empty payload); retries and queues are off, one request at a time; runs outside the synctest bubble on real loopback sockets; the OTLP specification's gRPC and HTTP status tables are written out in the oracle; distinct = distinct event-log hash; non-trivial = a refusing consumer, compression or a malformed request",
+	Rule: "one run = one request through one hop: tape-drawn signal, generated payload (or an empty one), transport (gRPC, HTTP/protobuf, HTTP/JSON), compression, consumer outcome (accept, permanent, transient, gRPC status of each of 16 codes with/without RetryInfo of 0/0.5/2/61 s), server authenticator on/off with/without client credentials; or a raw malformed HTTP request (bad body, wrong content type, wrong method, missing credentials, empty payload); retries and queues are off, one request at a time - or (1 hop run in 6) 2-6 requests with different payloads at the same time through the one exporter, held by the consumer until all have arrived, the even ones accepted and the odd ones refused, each payload must arrive once and unchanged and each sender must see its own outcome; runs outside the synctest bubble on real loopback sockets; the OTLP specification's gRPC and HTTP status tables are written out in the oracle; distinct = distinct event-log hash; non-trivial = a refusing consumer, compression or a malformed request",
 }
